@@ -14,7 +14,7 @@ echo "== build + tests of touched packages: $pk"
 (cd $WT && go build ./... 2>&1 | tail -3 && go test -count=1 $pk 2>&1 | tail -4); rc=${PIPESTATUS[0]}
 id=$prop-$k; mkdir -p /verif/refactors/$id
 cp "$diff" /verif/refactors/$id/patch.diff; cp "$meta" /verif/refactors/$id/agent_meta.json 2>/dev/null
-VD=/tmp/wt/rerun_verif; mkdir -p $VD/evidence/replay; cp /verif/known_findings.json $VD/
+VD=/tmp/wt/rerun_verif; mkdir -p $VD/evidence/replay $VD/checker; cp /verif/known_findings.json $VD/; cp /verif/checker/param_names.json $VD/checker/
 res=""
 for p in $prop "$@"; do
   out=$(cd /verif && VERIF_REPO=$WT VERIF_DIR=$VD ./bin/tdcheck -prop $p 2>&1); r=$?
